@@ -844,6 +844,16 @@ func (c *FnCtx) bvBinop(fr *frame, guard string, x *ssa.BinOp, a, b Term, w int)
 	// shift amounts may have a different width
 	if x.Op == token.SHL || x.Op == token.SHR {
 		bw, isbv := isBV(b.Sort)
+		if cst, ok := x.Y.(*ssa.Const); ok && !isbv && cst.Value != nil && cst.Int64() >= 0 {
+			// constant shift amount of type int (mathematical in this mode): a literal of the operand's width
+			// (an amount >= the width gives 0 in Go and in bvshl/bvlshr alike; bvashr fills with the sign as Go does)
+			amt := cst.Int64()
+			if amt > int64(w) {
+				amt = int64(w)
+			}
+			b = Term{S: fmt.Sprintf("(_ bv%d %d)", amt, w), Sort: a.Sort, T: b.T}
+			bw, isbv = w, true
+		}
 		if !isbv {
 			c.fail("shift by Int-sorted amount in bv mode")
 		}
@@ -898,6 +908,15 @@ func (c *FnCtx) bvBinop(fr *frame, guard string, x *ssa.BinOp, a, b Term, w int)
 	}
 	c.fail("unsupported bv binop %s", x.Op)
 	return Term{}
+}
+
+func isRuneSlice(t types.Type) bool {
+	sl, ok := t.Underlying().(*types.Slice)
+	if !ok {
+		return false
+	}
+	b, ok := sl.Elem().Underlying().(*types.Basic)
+	return ok && b.Kind() == types.Int32
 }
 
 func (c *FnCtx) convert(fr *frame, st *State, guard string, x *ssa.Convert) Term {
@@ -968,6 +987,22 @@ func (c *FnCtx) convert(fr *frame, st *State, guard string, x *ssa.Convert) Term
 		return Term{S: mkSlice(r, "0", ln, ln), Sort: SSlice, T: to}
 	case isStringT(to) && isStringT(from):
 		return Term{S: a.S, Sort: SInt, T: to}
+	case isRuneSlice(to) && isStringT(from):
+		// []rune(s): UTF-8 decoding is not modelled; sound over-approximation: a fresh slice with arbitrary
+		// contents and a length between 0 and len(s)
+		et := to.Underlying().(*types.Slice).Elem()
+		reg := c.elemRegion(et)
+		r := c.newRef(st, guard)
+		arr := c.fresh("srunes", fmt.Sprintf("(Array Int %s)", c.sortOf(et)))
+		c.set(st, reg, fmt.Sprintf("(store %s %s %s)", c.get(st, reg), r, arr))
+		ln := c.fresh("nrunes", SInt)
+		c.assume("", fmt.Sprintf("(and (<= 0 %s) (<= %s (strlen %s)))", ln, ln, a.S))
+		return Term{S: mkSlice(r, "0", ln, ln), Sort: SSlice, T: to}
+	case isStringT(to) && isRuneSlice(from):
+		// string(runes): a fresh string of arbitrary content, at most 4 bytes per rune
+		id := c.fresh("str", SInt)
+		c.assume("", fmt.Sprintf("(and (<= 0 %s) (<= 0 (strlen %s)) (<= (strlen %s) (* 4 %s)))", id, id, id, slLen(a.S)))
+		return Term{S: id, Sort: SInt, T: to}
 	case fint && (tsort == SFP32 || tsort == SFP64):
 		eb, sb := 8, 24
 		if tsort == SFP64 {
